@@ -3,6 +3,7 @@
 mod engine;
 mod gadgets;
 mod jsoncaps;
+mod leaf;
 mod policy;
 mod pool;
 mod publish;
@@ -36,6 +37,9 @@ fn main() -> Result<()> {
         "qb-replay" => wrapper::qb_replay(&args[2], &args[3], seed()),
         "wrap-record" => wrapper::record(&args[2], args[3].parse()?, &args[4], seed(), args.get(5).map(|s| s == "big").unwrap_or(false)),
         "wrap-selftest" => wrapper::selftest(),
+        "leaf-replay" => leaf::replay(&args[2], &args[3], seed(), args[4].parse()?),
+        "leaf-record" => leaf::record(&args[2], args[3].parse()?, seed()),
+        "leaf-selftest" => leaf::selftest(),
         _ => Err(anyhow!("unknown subcommand {cmd}")),
     }
 }
